@@ -135,7 +135,7 @@ class Ctx:
                 shutil.copy(os.path.join(VERIF, "spec", f), d)
         if workers is None:
             workers = 8
-        jopts = ["-XX:+UseParallelGC", "-Xss512m"]
+        jopts = ["-XX:+UseParallelGC", "-Xss512m", "-Djava.io.tmpdir=" + d]
         if dfs:
             jopts.append("-Dtlc2.tool.queue.IStateQueue=StateDeque")
         heap = os.environ.get("VERIF_TLC_HEAP", "8g")
